@@ -68,6 +68,10 @@ def world():
         w[nm] = z3.Int(nm)
     w['drops_are'] = drops_are
     w['empty_list'] = lambda x: z3.BoolVal(isinstance(x, Quoted) and len(x.items) == 0)
+    for b in ('bad_options', 'opt_patch', 'opt_timeline', 'feat_timeline', 'mft_timeline', 'synthetic_error', 'has_mup'):
+        w[b] = z3.Bool(b)
+    w['mup_num'], w['mup_den'] = z3.Int('mup_num'), z3.Int('mup_den')
+    w['max_age_is'] = max_age_is
     w['mup'], w['update_count'], w['uc_none'] = z3.Int('mup'), z3.Int('update_count'), z3.Bool('uc_none')
     w['__bases__'] = {'ServeManifest': ['RequestHandlerBase'], 'LiveMedia': ['MediaRequestBase'], 'MediaRequestBase': ['RequestHandlerBase']}
     return w
@@ -272,6 +276,90 @@ def manifest_error(kind):
 MANIFEST_ERR = [manifest_error('number'), manifest_error('time')]
 
 
+# ----------------------------------------------------------------------------- ServeManifest.get: option errors, patch / timeline flags
+class Features:
+    def __init__(self, has_timeline):
+        self.has_timeline = has_timeline
+
+    def contains(self, eng, item):
+        if item == 'segmentTimeline':
+            return self.has_timeline
+        raise Unsupported('feature lookup')
+
+
+def serve_manifest(mode):
+    def env(w):
+        return {'self': Obj('ServeManifest', {}), 'mode': mode, 'stream': Opaque('stream'), 'manifest': Opaque('name.mpd'),
+                'current_manifest': Obj('DashManifest', {'restrictions': Opaque('r'), 'features': Features(w['feat_timeline']),
+                                                         'segment_timeline': w['mft_timeline']}),
+                'current_stream': Obj('Stream', {'title': Opaque('title')})}
+
+    def calculate_options(eng, e, a, kw):
+        w = eng.world
+        if eng.branch(w['bad_options']):
+            raise PyRaise('ValueError')
+        return Obj('OptionsContainer', {'patch': w['opt_patch'], 'segmentTimeline': w['opt_timeline']})
+
+    def update(eng, e, a, kw):
+        eng.eval(e.func.value).f.update(kw)
+
+    def synthetic(eng, e, a, kw):
+        if eng.branch(eng.world['synthetic_error']):
+            return Obj('Response', {'status': eng.world['code'], 'kind': 'synthetic'})
+        return None
+
+    def context(eng, e, a, kw):
+        d = dict(kw)
+        if eng.branch(eng.world['has_mup']):
+            d['minimumUpdatePeriod'] = Ratio(eng.world['mup_num'], eng.world['mup_den'])
+        return d
+
+    def make_response(eng, e, a, kw):
+        v = a[0]
+        if isinstance(v, tuple):
+            return Obj('Response', {'status': v[1], 'kind': 'manifest', 'body': v[0], 'headers': v[2]})
+        return Obj('Response', {'status': a[1], 'kind': 'error'})
+    live = mode == 'live'
+    patch = 'opt_patch' if live else 'False'
+    bad = f'(bad_options or ({patch} and not feat_timeline))'
+    timeline = f'(False if not feat_timeline else (True if (mft_timeline or {patch}) else opt_timeline))'
+    return Contract(
+        key=f'{MFR}:ServeManifest.get', variant=mode, props=['C16', 'C09'], env=env,
+        requires=[('update_period', 'mup_den >= 1 and mup_num >= 0'), ('http_code', '100 <= code and code <= 599')],
+        models={'self.calculate_options': calculate_options, 'options.update': update, 'options.remove_unused_parameters': lambda eng, e, a, kw: None,
+                'attr:flask.request.args': lambda eng: Opaque('args'), 'html.escape': lambda eng, e, a, kw: Opaque('esc'),
+                'self.create_context': context, 'self.check_for_synthetic_manifest_error': synthetic,
+                'flask.render_template': lambda eng, e, a, kw: Obj('Rendered', {'options': kw['options']}),
+                'add_allowed_origins': lambda eng, e, a, kw: None, 'flask.make_response': make_response},
+        ctors={'ManifestContext': lambda eng, a, kw: Obj('ManifestContext', dict(kw))},
+        ensures=[
+            ('bad_request', f'(result.status == 400) if {bad} else True'),
+            ('synthetic_error_passes_through', f"(result.kind == 'synthetic' and result.status == code) if (not {bad} and synthetic_error) else True"),
+            ('manifest', f"(result.status == 200 and result.kind == 'manifest' and result.body.options.patch == ({patch}) and "
+                         f"result.body.options.segmentTimeline == {timeline}) if (not {bad} and not synthetic_error) else True"),
+            ('cache_lifetime', "(max_age_is(result.headers, (mup_num // mup_den) if has_mup else 60)) "
+                               f'if (not {bad} and not synthetic_error) else True'),
+        ],
+        canaries=['result.status == 400'],
+        witness_terms=lambda w: (lambda ev: dict({k: ev(z3.Bool(k)) for k in (
+            'bad_options', 'opt_patch', 'opt_timeline', 'feat_timeline', 'mft_timeline', 'synthetic_error', 'has_mup')},
+            **{k: ev(z3.Int(k)) for k in ('mup_num', 'mup_den', 'code')})),
+    )
+
+
+def max_age_is(headers, value):
+    from pyvc.models.strings import FString
+    cc = headers.get('Cache-Control') if isinstance(headers, dict) else None
+    if isinstance(cc, FString) and len(cc.parts) == 2 and cc.parts[0] == 'max-age=':
+        return zint(cc.parts[1]) == zint(value)
+    if isinstance(cc, str) and cc.startswith('max-age=') and cc[8:].isdigit():
+        return zint(value) == int(cc[8:])
+    return z3.BoolVal(False)
+
+
+SERVE_MANIFEST = [serve_manifest('live'), serve_manifest('vod')]
+
+
 def lemma_fires_failure_count_times(w):
     """History: starting from a cleared counter, a 5xx error addressed to a segment fires on requests 1..fc for that
     segment, request fc+1 is served and clears the counter (then the cycle restarts) - by induction over the single-call
@@ -285,7 +373,7 @@ def lemma_fires_failure_count_times(w):
 
 
 GROUP = Group(
-    name='errors', world=world, contracts=[INCREMENT, RESET] + SYNTH + MANIFEST_ERR + INJECTED + [INC_INLINE, RST_INLINE, SCALE_INLINE],
+    name='errors', world=world, contracts=[INCREMENT, RESET] + SYNTH + MANIFEST_ERR + SERVE_MANIFEST + INJECTED + [INC_INLINE, RST_INLINE, SCALE_INLINE],
     lemmas=[Lemma('fires_failure_count_times', ['C16'], lemma_fires_failure_count_times)],
     bounded=[{'name': 'c16_options', 'props': ['C16'], 'cmd': ['/venv/bin/python', 'bounded/c16_options.py', '{tier}', '--repo', '{repo}']}],
     assumptions=[
